@@ -279,6 +279,16 @@ func R(id, topic string, sender uint16) Step {
 }
 func S(topic string) Step { return Step{Kind: "S", Topic: topic} }
 
+// longLived: the local party sends on topic X once per epoch for 16 epochs (well beyond the expiry
+// of 6 epochs); a message arriving in every epoch must be handed over at once, in order.
+func longLived() []Step {
+	st := []Step{S("X")}
+	for i := 0; i < 16; i++ {
+		st = append(st, Step{Kind: "tick"}, S("X"), R(fmt.Sprintf("m%02d", i), "X", 1), S("Y"))
+	}
+	return st
+}
+
 func Scenarios(thorough bool) []Scenario {
 	b3 := 2
 	if thorough {
@@ -301,6 +311,9 @@ func Scenarios(thorough bool) []Scenario {
 		{Name: "14-Rnew||Rnew;S", Threads: [][]Step{{R("m1", "X", 1)}, {R("m2", "X", 2), S("X")}}, Bound: 100},
 		{Name: "s8-limit1-(R;S)x4", MaxTopics: 1, Threads: [][]Step{{R("m1", "A", 1), S("A"), R("m2", "B", 1), S("B"), R("m3", "C", 1), S("C"), R("m4", "D", 1), S("D")}}, Bound: 0},
 		{Name: "s9-limit1-two-senders", MaxTopics: 1, Threads: [][]Step{{R("m1", "A", 1), R("n1", "A", 2), S("A"), R("m2", "B", 1), R("n2", "B", 2), S("B"), R("m3", "C", 1), R("n3", "C", 2), S("C")}}, Bound: 0},
+		{Name: "s10-limit1-RR;S", MaxTopics: 1, Threads: [][]Step{{R("m1", "A", 1), R("m2", "A", 1), S("A")}}, Bound: 0},
+		{Name: "s11-limit3-exactly-at-limit", MaxTopics: 3, Threads: [][]Step{{R("m1", "A", 1), R("m2", "B", 1), R("m3", "C", 1), R("m4", "A", 1), R("m5", "B", 1), R("m6", "C", 1), S("A"), S("B"), S("C")}}, Bound: 0},
+		{Name: "s12-long-lived-topic", Threads: [][]Step{longLived()}, Bound: 0},
 		{Name: "s5-tick-R;S", Pre: []Step{{Kind: "tick"}}, Threads: [][]Step{{R("m1", "X", 1), S("X")}}, Bound: 0},
 		{Name: "13-Rnew||Sother", Threads: [][]Step{{R("m1", "Z", 1)}, {S("X")}}, Bound: 100},
 		{Name: "10-gc-stored-R||Sother", Pre: []Step{R("m0", "Z", 1)}, Threads: [][]Step{{R("m1", "Z", 1)}, {S("X")}}, Bound: 100},
